@@ -356,7 +356,7 @@ func runC11(t *testing.T, planAny any, res *simnet.Result) {
 					// goroutine repeating the initial message is parked on the write channel, so the hand-off that ends
 					// the handshake of this session cannot complete while the second session shows up
 					a.sess.BlockPeerSend(true)
-					time.Sleep(1600 * time.Millisecond)
+					time.Sleep(2600 * time.Millisecond)
 					res.Add("probe_blocked_handshake", 1)
 				}
 				seq++
@@ -443,6 +443,8 @@ func runC11(t *testing.T, planAny any, res *simnet.Result) {
 				break
 			}
 		}
+		dumpWire(w, "")
+		dumpEvents(w, "")
 		res.SimSeconds = w.Now().Seconds()
 		res.LogHash, res.LogLines = w.CanonicalLogHash()
 		res.Merge(w.Stats())
